@@ -103,6 +103,20 @@ CHECKS = {
         design_ref="DESIGN.md section 4, C17",
         note="Trusted base: the reference model in checks/c17.py (ordered dict of lists plus numpy's own casting rule "
              "for in-place writes into integer/float32 columns); numpy and h5py taken as correct."),
+    "C18": dict(
+        engine="histsim",
+        technique="deterministic simulation with fault injection on the file seam: seeded save/load/re-save histories "
+                  "over named slots in a private directory for every on-disk format, every load re-reading from disk "
+                  "(restart), ENOSPC/EIO (optionally torn) injected into the k-th write() of the text writers; "
+                  "acknowledged-write oracle against an in-memory model with the documented precisions",
+        text="A save that returns is acknowledged and must read back to the documented precision (titles, order, header "
+             "parameters with types, integer dtypes in HDF5, grain order); a save that raises leaves the slot "
+             "unspecified only until the next acknowledged save. Histories include overwriting HDF5 groups with the "
+             "same / different length and title set, second-generation saves, and failed-then-repeated saves. HDF5 "
+             "writes are not fault-injected (no libhdf5 seam).",
+        design_ref="DESIGN.md section 4, C18",
+        note="Trusted base: the format/precision table written down in checks/c18.py independently of the library's "
+             "tables; h5py/libhdf5 and the OS file system taken as correct; histories are sampled."),
 }
 
 NOT_APPLICABLE = {
